@@ -26,6 +26,7 @@ def run(ctx, rep):
 def _layers(ctx, rep):
     N = ctx.n(400, 12000)
     pend = []
+    late = []
     for case in range(N):
         dirs = ['d1', 'd2', 'd3'][:ctx.rng.randint(1, 3)]
         conf_dirs = list(dirs)
@@ -81,6 +82,27 @@ def _layers(ctx, rep):
                          'sorted) %r; layers %r' % (got, conf_dirs, want, layers),
                          {'conf_dirs': conf_dirs, 'layers': layers, 'regs': regs})
             pend.append((key, got, w.model_request(), conf_dirs, layers))
+            if len(regs) >= 2 and case % 3 == 0:
+                # the same configuration observed on an enforcer whose defaults were registered in two batches with a
+                # load in between (services register per-module defaults as modules are imported)
+                ds = w.rule_defaults()
+                cut = ctx.rng.randint(0, len(ds) - 1)
+                e2 = w.new_enforcer(defaults=ds[:cut])
+                saved_steps, w.steps = w.steps, []
+                try:
+                    err = w.load(e2)
+                    w.register(e2, regs[cut:])
+                    err = err or w.load(e2)
+                    got2 = err or fsharness.observe(e2)
+                except Exception as ex:     # noqa
+                    got2 = 'raise:' + type(ex).__name__
+                late.append((key, got2, w.model_request(initial_regs=regs[:cut]), conf_dirs, layers, cut))
+                w.steps = saved_steps
+                if got2 != want:
+                    rep.fail(key + '|late', 'effective policy %r after registering %d of %d defaults, loading, registering the rest '
+                             'and loading again; expected %r' % (got2, cut, len(ds), want),
+                             {'conf_dirs': conf_dirs, 'layers': layers, 'regs': regs, 'registered_before_first_load': cut})
+                rep.stat('late_registration')
             rep.stat('dirs:%d' % len(dirs))
             rep.stat('missing_dir' if missing else 'all_dirs_exist')
             rep.case(key=key, nontrivial=len(layers) >= 2, sample={'conf_dirs': conf_dirs, 'layers': [l for l, _ in layers],
@@ -91,6 +113,10 @@ def _layers(ctx, rep):
         mr = {a: b for a, b in ans['loads'][0]['rules']}
         if mr != got:
             rep.disagree('loader-layers', {'conf_dirs': conf_dirs, 'layers': layers}, mr, got)
+    for (key, got2, rq, conf_dirs, layers, cut), ans in zip(late, driver.call([p[2] for p in late])):
+        mr = {a: b for a, b in ans['loads'][-1]['rules']}
+        if mr != got2:
+            rep.disagree('loader-late-registration', {'conf_dirs': conf_dirs, 'layers': layers, 'registered_first': cut}, mr, got2)
     rep.rules.append('%d layerings: 4 names assigned to random subsets of layers (registered default, main file present/absent, '
                      '1..3 directories in shuffled configured order each with 0..3 files whose names distinguish sort order from '
                      'creation order, dot-file, sub-directory with a file, configured-but-missing directory), every file '
